@@ -358,19 +358,27 @@ class ConnectionManager:
                 (connect_task, closing_task),
                 return_when=FIRST_COMPLETED,
             )
+            closing_task.cancel()
+            if not connect_task.done():
+                # close() was called. Abort back-off sleep or pending connection attempt.
+                connect_task.cancel()
 
             if self._connection:
-                _, protocol = self._connection
+                transport, protocol = self._connection
                 done_task = ensure_future(protocol.done)
                 closing_task2 = create_task(self._is_closing.wait())
                 await wait(
                     (done_task, closing_task2),
                     return_when=FIRST_COMPLETED,
                 )
+                closing_task2.cancel()
 
                 if not self._is_closing.is_set():
                     _LOGGER.warning("Connection lost")
                     self._update_connection_lost_circuit_breaker()
+                elif self._connection:
+                    # close() was called before the new connection was stored.
+                    transport.close()
 
                 self._connection = None
 
